@@ -105,6 +105,8 @@ def run(ctx):
 
     for batch, reps in zip(groups, pmap(proc, groups)):
         for (chunk, text), rep in zip(batch, reps):
+            if worker.timed_out(ctx, rep):
+                continue
             if "ok" not in rep:
                 for r in chunk:
                     ctx.case(None)
